@@ -799,8 +799,20 @@ fn pass_by_name(n: &str) -> &'static Pass {
     PASSES.iter().find(|p| p.name == n).unwrap_or(&PASSES[0])
 }
 
+/// canonical op pattern of a (minimised) history: op kinds with key numbers dropped, plain single/multi-row
+/// inserts both written `Ins`, consecutive repetitions collapsed
 fn pattern(preload: Preload, h: &[Op]) -> String {
-    format!("{}:{}", preload.name(), h.iter().map(|o| o.kind()).collect::<Vec<_>>().join(","))
+    let mut ks: Vec<&str> = Vec::new();
+    for o in h {
+        let k = match o.kind() {
+            "InsMulti" => "Ins",
+            k => k,
+        };
+        if ks.last() != Some(&k) {
+            ks.push(k);
+        }
+    }
+    format!("{}:{}", preload.name(), ks.join(","))
 }
 fn signature(v: &Variant, preload: Preload, h: &[Op], c: &Class) -> String {
     format!("C10/{}/{}/{}/{}", v.name, c.site, pattern(preload, h), c.kind)
@@ -835,20 +847,34 @@ impl<'a> Explorer<'a> {
         }
         c
     }
-    /// greedy 1-minimal sub-history (and smallest preload) that still shows the class
+    /// greedy 1-minimal sub-history (and smallest preload) that still shows the class; then simpler
+    /// operations are substituted (Reins -> DelKey / Ins, multi-row or NULL insert -> plain insert) and a
+    /// preload is replaced by one leading insert when that suffices
     fn minimize(&mut self, pass: &'static Pass, v: &'static Variant, p: Preload, h: &[Op], c: &Class) -> (Preload, Vec<Op>) {
         let mut p = p;
         let mut h = h.to_vec();
-        while let Some(q) = p.smaller() {
-            if self.classes_of(pass, v, q, &h).contains(c) {
-                p = q;
-            } else {
-                break;
-            }
-        }
         loop {
             let mut changed = false;
-            // try removing bracket pairs / single ops
+            while let Some(q) = p.smaller() {
+                if self.classes_of(pass, v, q, &h).contains(c) {
+                    p = q;
+                    changed = true;
+                } else {
+                    break;
+                }
+            }
+            if p != Preload::None {
+                for lead in [Ins1, Ins2, InsM, Ins3] {
+                    let mut cand = vec![lead];
+                    cand.extend_from_slice(&h);
+                    if wellformed(&cand, v.flavor) && self.classes_of(pass, v, Preload::None, &cand).contains(c) {
+                        p = Preload::None;
+                        h = cand;
+                        changed = true;
+                        break;
+                    }
+                }
+            }
             let mut i = 0;
             while i < h.len() {
                 let mut cand = h.clone();
@@ -870,6 +896,26 @@ impl<'a> Explorer<'a> {
                         h = cand;
                         changed = true;
                         break 'outer;
+                    }
+                }
+            }
+            // substitute simpler operations
+            for i in 0..h.len() {
+                let subs: &[Op] = match h[i] {
+                    Reins1 => &[Del1, Ins1],
+                    InsM => &[Ins1, Ins2],
+                    Ins3 => &[Ins1, Ins2],
+                    Ins2 => &[Ins1],
+                    Del2 => &[Del1],
+                    _ => &[],
+                };
+                for &r in subs {
+                    let mut cand = h.clone();
+                    cand[i] = r;
+                    if wellformed(&cand, v.flavor) && self.classes_of(pass, v, p, &cand).contains(c) {
+                        h = cand;
+                        changed = true;
+                        break;
                     }
                 }
             }
